@@ -2,8 +2,18 @@
    The AnyIO side (StreamProtocol + SocketStream, the UNIXSocketStream loops, the resource guards) is proved for
    every sequence of API, scheduler and transport ops; the asyncio transport and the kernel are the environment
    (arbitrary op sequences / arbitrary oracle scripts; contracts appear as explicit hypotheses).
-   This file contains only statements closed by `exact` and their Print Assumptions. *)
-From AV Require Import Base SockProto SockProtoProofs SockProtoThms SockProtoLive UnixLoop UnixLoopProofs UnixLoopCloseProofs.
+   This file contains only statements closed by `exact` and their Print Assumptions.
+
+   OBSERVATIONS (outside the clause texts of C18, recorded by the end-to-end harness in evidence `observations`, no theorem):
+   - uvloop reports a connection reset by the peer that arrives after partial data, while no receive() is waiting, as a clean
+     EndOfStream (libuv short-circuits POLLHUP to EOF); the stock loop reports BrokenResourceError;
+   - UNIXSocketStream.send(b"") on a locally closed stream returns normally (the `while view:` loop never touches the socket);
+   - UNIXSocketStream.receive(2**40) raises MemoryError (the kernel contract recv(n) allocates n bytes);
+   - send_eof() on a locally closed stream raises OSError (UNIX) resp. RuntimeError / nothing (TCP) instead of ClosedResourceError.
+   KNOWN FINDING F48 (no theorem: kernel TCP behaviour is outside the model): closing a TCP stream while inbound data is unread
+   makes the kernel reset the connection and destroy data already sent; the directed real-socket scenario reports it as
+   KNOWN-FINDING. *)
+From AV Require Import Base SockProto SockProtoProofs SockProtoThms SockProtoLive SockProtoFlow UnixLoop UnixLoopProofs UnixLoopCloseProofs.
 
 (* stepv p: p = false is HEAD, p = true the pinned tree before commit ab750b3; r0 = initial reading flag *)
 
@@ -108,9 +118,13 @@ Theorem C18_send_waits_for_write_gate : forall p r0 s t pw s',
         wval s' (wev s') = true /\ g_written s' = g_written s ++ item) /\
      (stepv p s (Resume t pw) = (s', RBlocked) ->
         phase_of s' t = SendWait (wev s') FPending /\ wval s' (wev s') = false /\
-        g_written s' = g_written s ++ item)) /\
+        (g_written s' = g_written s ++ item \/
+         (p = false /\ g_written s' = g_written s /\ prew s' t = Some item)))) /\
   (forall ev f, phase_of s t = SendWait ev f ->
-     stepv p s (Resume t pw) = (s', RDone) -> f = FSet /\ wval s ev = true).
+     stepv p s (Resume t pw) = (s', RDone) ->
+     f = FSet /\ wval s ev = true /\
+     (forall item, prew s t = Some item -> wval s' (wev s') = true /\ g_written s' = g_written s ++ item) /\
+     (prew s t = None -> g_written s' = g_written s)).
 Proof. exact send_waits_for_write_gate. Qed.
 Print Assumptions C18_send_waits_for_write_gate.
 
@@ -305,3 +319,60 @@ Theorem C18_unix_close_while_registered_refuted_pinned :
    c_phr s = CIdle /\ c_phs s = CIdle /\ c_fdopen s = false /\ c_cwr s = false /\ c_errs s = 0).
 Proof. exact unix_close_while_registered_refuted_pinned. Qed.
 Print Assumptions C18_unix_close_while_registered_refuted_pinned.
+
+(* finding F45 (fixed, commit 58a3fa8): no unbounded buffering after a cancelled send() *)
+Theorem C18_send_buffer_holds_at_most_one_send : forall r0 s,
+  reachv false r0 s -> g_pending s <= 1.
+Proof. exact send_buffer_holds_at_most_one_send. Qed.
+Print Assumptions C18_send_buffer_holds_at_most_one_send.
+
+Theorem C18_send_prewait_released_means_drained : forall r0 s t ev,
+  reachv false r0 s -> phase_of s t = SendWait ev FSet -> prew s t <> None -> g_pending s = 0.
+Proof. exact send_prewait_released_means_drained. Qed.
+Print Assumptions C18_send_prewait_released_means_drained.
+
+Theorem C18_send_buffer_holds_at_most_one_send_refuted_pinned :
+  let ops := [Send 1 [1]%Z; Resume 1 true; Cancel 1; Resume 1 false;
+              Send 1 [2]%Z; Resume 1 false; Cancel 1; Resume 1 false;
+              Send 1 [3]%Z; Resume 1 false; Cancel 1; Resume 1 false;
+              Send 1 [4]%Z; Resume 1 false] in
+  let s := final (stepv true) (init false) ops in
+  g_pending s = 4 /\ g_written s = [1; 2; 3; 4]%Z /\ wval s (wev s) = false /\
+  (let s' := final (stepv false) (init false) ops in g_pending s' = 1 /\ g_written s' = [1]%Z).
+Proof. exact send_buffer_holds_at_most_one_send_refuted_pinned. Qed.
+Print Assumptions C18_send_buffer_holds_at_most_one_send_refuted_pinned.
+
+(* finding F44 (fixed, commit a778493): a cancelled aclose() still aborts; the connection_lost owed by the transport wakes
+   every parked call, which ends with ClosedResourceError *)
+Theorem C18_sock_cancelled_close_still_aborts : forall s t pw,
+  phase_of s t = CloseYield ->
+  let s' := fst (stepv false s (Resume t pw)) in
+  aborted s' = true /\ phase_of s' t = Idle /\ closed s' = closed s /\
+  snd (stepv false s (Resume t pw)) = (if mustc s t then RCancelled else RDone).
+Proof. exact sock_cancelled_close_still_aborts. Qed.
+Print Assumptions C18_sock_cancelled_close_still_aborts.
+
+Theorem C18_sock_connection_lost_wakes_everyone : forall p r0 s e,
+  reachv p r0 s ->
+  let s' := fst (stepv p s (ConnectionLost e)) in
+  (forall t mx, phase_of s' t <> RecvWait mx FPending) /\
+  (forall t ev, phase_of s' t = SendWait ev FPending -> ev <> wev s').
+Proof. exact sock_connection_lost_wakes_everyone. Qed.
+Print Assumptions C18_sock_connection_lost_wakes_everyone.
+
+Theorem C18_sock_woken_calls_on_closed_stream : forall s t pw,
+  closed s = true -> mustc s t = false ->
+  (forall ev, phase_of s t = SendWait ev FSet -> snd (stepv false s (Resume t pw)) = RClosed) /\
+  (forall mx, phase_of s t = RecvWait mx FSet ->
+     snd (stepv false s (Resume t pw)) = match rq s with [] => RClosed | hd :: _ => RData (firstn mx hd) end).
+Proof. exact sock_woken_calls_on_closed_stream. Qed.
+Print Assumptions C18_sock_woken_calls_on_closed_stream.
+
+Theorem C18_sock_cancelled_close_still_aborts_refuted_pinned :
+  let ops := [Send 1 [7]%Z; Resume 1 true; Receive 2 4; Close 3; Cancel 3; Resume 3 false] in
+  let s := final (stepv true) (init false) ops in
+  closed s = true /\ aborted s = false /\ phase_of s 3 = Idle /\
+  phase_of s 1 = SendWait 1 FPending /\ phase_of s 2 = RecvWait 4 FPending /\
+  (let s' := final (stepv false) (init false) ops in aborted s' = true).
+Proof. exact sock_cancelled_close_still_aborts_refuted_pinned. Qed.
+Print Assumptions C18_sock_cancelled_close_still_aborts_refuted_pinned.
